@@ -1,6 +1,8 @@
 """C11 - routing follows the most specific live claim"""
 from check import Property
 from props import tableutil as tu
+from props import nodeutil as nu
+from props import routeutil as ru
 
 
 class C11(Property):
@@ -8,7 +10,9 @@ class C11(Property):
     rule = ("prefix matching: 8-bit universe (bases x prefix 0..20 x addresses; exhaustive in the thorough tier), 16-bit universe sample, "
             "random 4/6/8/16-byte addresses x prefix 0..255 against a bit-by-bit reference; table: bounded-exhaustive and random operation "
             "sequences {announce, re-announce, withdraw, disconnect, lookup, learn, advance time 0/1/timeout+-1, sweep} on 3 peers x nested "
-            "ranges against a history-based reference; non-trivial = distinct case with at least one positive match / successful lookup")
+            "ranges against a history-based reference; node level: a meshed router whose peer changes its claims at run time (withdraw / shrink / move / grow / /32) with "
+            "probes before and after the next announcement, and learning switches whose peer falls silent (next hops must follow the live claims, "
+            "never a non-peer); non-trivial = distinct case with at least one positive match / successful lookup")
 
     def gen(self, rng, tier):
         thorough = tier == "thorough"
@@ -68,20 +72,36 @@ class C11(Property):
         for _ in range(4000 if thorough else 500):
             cto, clto = rng.choice([(10, 20), (300, 300), (5, 3), (1, 1), (0, 0)])
             out.append("table %d %d %s" % (cto, clto, " ".join(tu.rand_ops(rng, rng.choice([10, 30, 80, 300]), cto, clto))))
+        # node level: how the NODE drives the table - a connected peer's claims change at run time (withdrawn, shrunk, moved, grown),
+        # and a peer that taught addresses falls silent and is timed out
+        k = 60 if thorough else 8
+        out += ru.reannounce_cases(rng, k) + ru.silent_learned_cases(rng, k)
         return out
 
+    def model_line(self, line, impl_out):
+        return nu.model_line(line, impl_out) if ru.is_node(line) else line
+
+    def canon_impl(self, line, out):
+        return nu.canon_impl(out) if ru.is_node(line) else super().canon_impl(line, out)
+
     def nontrivial(self, line, impl_out):
+        if ru.is_node(line):
+            return True
         if line.startswith("matches"):
             return impl_out == "1"
         return " p" in " " + impl_out
 
     def tag(self, line, impl_out):
+        if ru.is_node(line):
+            return "node:" + ru.family_of(line)
         if line.startswith("matches"):
             return "matches:" + impl_out
         t = impl_out.split()
         return "table:hit%d/none%d" % (min(3, sum(x.startswith("p") for x in t)), min(3, t.count("none")))
 
     def oracle(self, line, impl_out):
+        if ru.is_node(line):
+            return ru.oracle(line, impl_out)
         t = line.split()
         if t[0] == "matches":
             b = bytes.fromhex(t[1]) if t[1] != "-" else b""
